@@ -3,14 +3,14 @@ import BFL.Proofs.QuatMean
 C18 — Quaternion utilities form a consistent exponential/logarithm pair on rotations.
 
 Theorems about the model `quatExp`, `quatLog`, `quatSum`, `quatDiff`, `outerMean`, `quatMean`
-(BFL/Model/Quat.lean) read over ℝ.  `cutoff = 1e-4` is the constant written in both conversions.
+(BFL/Model/Quat.lean) read over ℝ.
 
-One clause of the property is false to the letter on a sliver of inputs: for
-`2e-4 < ‖r‖ ≤ 2 arcsin(1e-4) = 2.0000000033…e-4` the exponential is regular but the logarithm's own
-cut-off (`‖vec‖ = sin(‖r‖/2) ≤ 1e-4`) returns 0, so the round-trip error is `‖r‖`, up to 3.4e-13 above
-the nominal bound 2e-4.  The full-strength statement is kept (`RoundTripWithin2e4`), with
-`log_exp_within_2e4_partial`, the honest bound `log_exp_bound` (`≤ 2 arcsin(1e-4) < 2.00000001e-4`) and
-`log_exp_cutoff_sliver_counterexample` (witness `r = (2.000000001e-4, 0, 0)`).
+`cutoff = 1e-4` is the constant of the exponential (on `‖r‖`), `cutoffLog = 5e-5` the constant of the
+logarithm (on `‖vec‖ = sin(angle/2)`; repaired in de34974, it used to be `1e-4`, which made the round trip
+exceed the stated bound on a sliver above `2e-4`).  The two still do not coincide exactly: for
+`1e-4 < ‖r‖ ≤ 2 arcsin(5e-5) = 1.0000000004…e-4` the exponential is regular and the logarithm returns 0;
+the honest round-trip bound is `2 arcsin(5e-5) < 1.00000001e-4`, well inside the property's `2e-4`
+(`log_exp_bound`, `log_exp_within_2e4`).
 -/
 namespace BFL.Quat
 open Real
@@ -33,7 +33,7 @@ theorem sum_left_convention (q : Q ℝ) (r : V3 ℝ) (h : cutoff < r.norm) :
 
 /-- left convention of the difference: `2 log(q_l ⊗ q_r*)`: for a unit product with `w ≥ 0` the
     result is `2 acos(w) v/‖v‖` of `q_l ⊗ q_r*` -/
-theorem diff_left_convention (ql qr : Q ℝ) (h : cutoff < (ql.mul qr.conj).vec.norm)
+theorem diff_left_convention (ql qr : Q ℝ) (h : cutoffLog < (ql.mul qr.conj).vec.norm)
     (hw : 0 ≤ (ql.mul qr.conj).w) :
     quatDiff ql qr =
       ⟨2 * Real.arccos (ql.mul qr.conj).w * (ql.mul qr.conj).x / (ql.mul qr.conj).vec.norm,
@@ -53,78 +53,58 @@ example : (⟨0, 1, 0, 0⟩ : Q ℝ).mul ⟨0, 0, 1, 0⟩ ≠ (⟨0, 0, 1, 0⟩ 
 
 /-- exact inverse when both cut-offs are cleared -/
 theorem log_exp_exact (r : V3 ℝ) (h1 : cutoff < r.norm) (h2 : r.norm < π)
-    (h3 : cutoff < Real.sin (r.norm / 2)) : quatLog (quatExp r) = r := quatLog_quatExp r h1 h2 h3
+    (h3 : cutoffLog < Real.sin (r.norm / 2)) : quatLog (quatExp r) = r := quatLog_quatExp r h1 h2 h3
 
-/-- an explicit range on which both are cleared: `2.00000001e-4 ≤ ‖r‖ < π` -/
-theorem log_exp_exact_range (r : V3 ℝ) (h1 : 2.00000001e-4 ≤ r.norm) (h2 : r.norm < π) :
+/-- an explicit range on which both are cleared: `1.00000001e-4 ≤ ‖r‖ < π` -/
+theorem log_exp_exact_range (r : V3 ℝ) (h1 : 1.00000001e-4 ≤ r.norm) (h2 : r.norm < π) :
     quatLog (quatExp r) = r := by
-  have hc : cutoff < r.norm := by rw [cutoff_val]; linarith [show (1 / 10000 : ℝ) < 2.00000001e-4 by norm_num]
+  have hc : cutoff < r.norm := by rw [cutoff_val]; linarith [show (1 / 10000 : ℝ) < 1.00000001e-4 by norm_num]
   refine quatLog_quatExp r hc h2 ?_
   by_contra hs
   have := small_of_sin_le (V3.norm_nonneg r) h2 (not_lt.mp hs)
-  linarith [two_arcsin_cutoff_lt]
+  linarith [two_arcsin_cutoffLog_lt]
 
-/-- round-trip error for every `‖r‖ < π`: at most `2 arcsin(1e-4)`, which is below `2.00000001e-4`
-    (and above `2e-4`) -/
+/-- round-trip deviation for every `‖r‖ < π`: at most `2 arcsin(5e-5)`, which lies strictly between
+    `1e-4` and `1.00000001e-4` -/
 theorem log_exp_bound (r : V3 ℝ) (h2 : r.norm < π) :
-    ((quatLog (quatExp r)).sub r).norm ≤ 2 * Real.arcsin cutoff ∧
-    2 * Real.arcsin cutoff < 2.00000001e-4 ∧ 2 * cutoff < 2 * Real.arcsin cutoff := by
-  refine ⟨?_, two_arcsin_cutoff_lt, two_cutoff_lt_two_arcsin⟩
-  by_cases h : cutoff < r.norm ∧ cutoff < Real.sin (r.norm / 2)
+    ((quatLog (quatExp r)).sub r).norm ≤ 2 * Real.arcsin cutoffLog ∧
+    2 * Real.arcsin cutoffLog < 1.00000001e-4 ∧ cutoff < 2 * Real.arcsin cutoffLog := by
+  refine ⟨?_, two_arcsin_cutoffLog_lt, cutoff_lt_two_arcsin⟩
+  by_cases h : cutoff < r.norm ∧ cutoffLog < Real.sin (r.norm / 2)
   · rw [quatLog_quatExp r h.1 h2 h.2, V3.sub_self_norm]
-    linarith [two_cutoff_lt_two_arcsin, cutoff_pos]
+    linarith [cutoff_lt_two_arcsin, cutoff_pos]
   · obtain ⟨hz, hs⟩ := quatLog_quatExp_small r h2 h
     rw [hz, V3.zero_sub_norm]
     exact small_of_sin_le (V3.norm_nonneg r) h2 hs
 
-/-- the property's clause to the letter: absolute error at most 2e-4 for every `‖r‖ < π` -/
-def RoundTripWithin2e4 : Prop :=
-  ∀ r : V3 ℝ, r.norm < π → ((quatLog (quatExp r)).sub r).norm ≤ 2e-4
-
-/-- it holds for every `r` outside the sliver `2e-4 < ‖r‖`, `sin(‖r‖/2) ≤ 1e-4` -/
-theorem log_exp_within_2e4_partial (r : V3 ℝ) (h2 : r.norm < π)
-    (h : r.norm ≤ 2e-4 ∨ cutoff < Real.sin (r.norm / 2)) :
+/-- the property's clause to the letter: absolute deviation at most 2e-4 for every `‖r‖ < π` -/
+theorem log_exp_within_2e4 (r : V3 ℝ) (h2 : r.norm < π) :
     ((quatLog (quatExp r)).sub r).norm ≤ 2e-4 := by
-  by_cases hreg : cutoff < r.norm ∧ cutoff < Real.sin (r.norm / 2)
-  · rw [quatLog_quatExp r hreg.1 h2 hreg.2, V3.sub_self_norm]; norm_num
-  · obtain ⟨hz, hs⟩ := quatLog_quatExp_small r h2 hreg
-    rw [hz, V3.zero_sub_norm]
-    rcases h with h | h
-    · exact h
-    · exact absurd h (not_lt.mpr hs)
-
-/-- … and fails inside it: `r = (2.000000001e-4, 0, 0)` -/
-theorem log_exp_cutoff_sliver_counterexample : ¬ RoundTripWithin2e4 := by
-  intro h
-  have hπ : rSliver.norm < π := by rw [rSliver_norm]; linarith [Real.pi_gt_three, show (2.000000001e-4 : ℝ) < 3 by norm_num]
-  have h1 := h rSliver hπ
-  have hnot : ¬ (cutoff < rSliver.norm ∧ cutoff < Real.sin (rSliver.norm / 2)) :=
-    fun hc => absurd hc.2 (not_lt.mpr rSliver_sin)
-  obtain ⟨hz, _⟩ := quatLog_quatExp_small rSliver hπ hnot
-  rw [hz, V3.zero_sub_norm, rSliver_norm] at h1
-  norm_num at h1
+  have h := log_exp_bound r h2
+  have : (1.00000001e-4 : ℝ) ≤ 2e-4 := by norm_num
+  linarith [h.1, h.2.1]
 
 /-- non-vacuity of `log_exp_exact`: a rotation vector of norm 1 clears both cut-offs -/
-example : ∃ r : V3 ℝ, cutoff < r.norm ∧ r.norm < π ∧ cutoff < Real.sin (r.norm / 2) := by
+example : ∃ r : V3 ℝ, cutoff < r.norm ∧ r.norm < π ∧ cutoffLog < Real.sin (r.norm / 2) := by
   have hn : (⟨1, 0, 0⟩ : V3 ℝ).norm = 1 := by rw [V3.norm_def]; simp
   refine ⟨⟨1, 0, 0⟩, by rw [hn, cutoff_val]; norm_num, by rw [hn]; linarith [Real.pi_gt_three], ?_⟩
   rw [hn]
   have := Real.sin_gt_sub_cube (x := 1 / 2) (by norm_num)
-  rw [cutoff_val]; linarith [show (1 / 10000 : ℝ) < 1 / 2 - (1 / 2) ^ 3 / 6 by norm_num]
+  rw [cutoffLog_val]; linarith [show (1 / 20000 : ℝ) < 1 / 2 - (1 / 2) ^ 3 / 6 by norm_num]
 
 /-! ## exp ∘ log, the double cover, norm of differences -/
 
 /-- on unit quaternions with `w ≥ 0` outside the cut-off the conversions are mutually inverse -/
-theorem exp_log (q : Q ℝ) (hq : q.normSq = 1) (hw : 0 ≤ q.w) (h : cutoff < q.vec.norm) :
+theorem exp_log (q : Q ℝ) (hq : q.normSq = 1) (hw : 0 ≤ q.w) (h : cutoffLog < q.vec.norm) :
     quatExp (quatLog q) = q := quatExp_quatLog q hq hw h
 
 /-- `q` and `-q` are treated as the same rotation: same rotation vector (away from the exact half
     turn `w = 0`, where the two results are `± π v/‖v‖`, the same rotation again) -/
 theorem log_neg (q : Q ℝ) (hw : q.w ≠ 0) : quatLog q.neg = quatLog q := quatLog_neg_eq q hw
 
-theorem log_neg_half_turn (q : Q ℝ) (hw : q.w = 0) (h : cutoff < q.vec.norm) :
+theorem log_neg_half_turn (q : Q ℝ) (hw : q.w = 0) (h : cutoffLog < q.vec.norm) :
     quatLog q.neg = (quatLog q).neg ∧ (quatLog q).norm = π := by
-  have h' : cutoff < q.neg.vec.norm := by rw [vec_neg_norm]; exact h
+  have h' : cutoffLog < q.neg.vec.norm := by rw [vec_neg_norm]; exact h
   have hw' : q.neg.w = 0 := by simp [Q.neg, hw]
   constructor
   · rw [quatLog_pos _ h' (by rw [hw']), quatLog_pos _ h (by rw [hw]), vec_neg_norm, hw, hw']
@@ -132,7 +112,7 @@ theorem log_neg_half_turn (q : Q ℝ) (hw : q.w = 0) (h : cutoff < q.vec.norm) :
   · rw [quatLog_norm q h, hw, abs_zero, Real.arccos_zero]; ring
 
 /-- for `w < 0` the round trip returns the other representative of the same rotation -/
-theorem exp_log_neg_branch (q : Q ℝ) (hq : q.normSq = 1) (hw : q.w < 0) (h : cutoff < q.vec.norm) :
+theorem exp_log_neg_branch (q : Q ℝ) (hq : q.normSq = 1) (hw : q.w < 0) (h : cutoffLog < q.vec.norm) :
     quatExp (quatLog q) = q.neg := by
   rw [← quatLog_neg_eq q hw.ne]
   exact quatExp_quatLog q.neg (by rw [normSq_neg]; exact hq) (by simp only [Q.neg]; linarith)
@@ -142,7 +122,7 @@ theorem exp_log_neg_branch (q : Q ℝ) (hq : q.normSq = 1) (hw : q.w < 0) (h : c
     in the regular branch the norm is `2 acos |w|` -/
 theorem diff_norm_le_pi (ql qr : Q ℝ) : (quatDiff ql qr).norm ≤ π := quatLog_norm_le_pi _
 
-theorem log_norm (q : Q ℝ) (h : cutoff < q.vec.norm) : (quatLog q).norm = 2 * Real.arccos |q.w| :=
+theorem log_norm (q : Q ℝ) (h : cutoffLog < q.vec.norm) : (quatLog q).norm = 2 * Real.arccos |q.w| :=
   quatLog_norm q h
 
 /-- negating either operand of a difference does not change it -/
@@ -158,19 +138,20 @@ theorem diff_neg_right (p q : Q ℝ) (hw : (p.mul q.conj).w ≠ 0) : quatDiff p 
 theorem diff_sum_eq (q : Q ℝ) (hq : q.normSq = 1) (r : V3 ℝ) :
     quatDiff (quatSum q r) q = quatLog (quatExp r) := quatDiff_quatSum q hq r
 
-/-- … hence gives back `r` when both cut-offs are cleared (in particular for `2.00000001e-4 ≤ ‖r‖ < π`) … -/
-theorem diff_sum (q : Q ℝ) (hq : q.normSq = 1) (r : V3 ℝ) (h1 : 2.00000001e-4 ≤ r.norm) (h2 : r.norm < π) :
+/-- … hence gives back `r` when both cut-offs are cleared (in particular for `1.00000001e-4 ≤ ‖r‖ < π`) … -/
+theorem diff_sum (q : Q ℝ) (hq : q.normSq = 1) (r : V3 ℝ) (h1 : 1.00000001e-4 ≤ r.norm) (h2 : r.norm < π) :
     quatDiff (quatSum q r) q = r := by
   rw [quatDiff_quatSum q hq r]; exact log_exp_exact_range r h1 h2
 
-/-- … and up to `2 arcsin(1e-4) < 2.00000001e-4` for every `‖r‖ < π`. -/
+/-- … and up to `2 arcsin(5e-5) < 1.00000001e-4`, hence within the property's 2e-4, for every `‖r‖ < π`. -/
 theorem diff_sum_bound (q : Q ℝ) (hq : q.normSq = 1) (r : V3 ℝ) (h2 : r.norm < π) :
-    ((quatDiff (quatSum q r) q).sub r).norm ≤ 2 * Real.arcsin cutoff := by
-  rw [quatDiff_quatSum q hq r]; exact (log_exp_bound r h2).1
+    ((quatDiff (quatSum q r) q).sub r).norm ≤ 2 * Real.arcsin cutoffLog ∧
+    ((quatDiff (quatSum q r) q).sub r).norm ≤ 2e-4 := by
+  rw [quatDiff_quatSum q hq r]; exact ⟨(log_exp_bound r h2).1, log_exp_within_2e4 r h2⟩
 
 /-- adding the difference `p ⊖ q` to `q` gives back `p` (as a rotation: `p` or `-p`) -/
 theorem sum_diff (p q : Q ℝ) (hp : p.normSq = 1) (hq : q.normSq = 1)
-    (h : cutoff < (p.mul q.conj).vec.norm) :
+    (h : cutoffLog < (p.mul q.conj).vec.norm) :
     (0 < (p.mul q.conj).w → quatSum q (quatDiff p q) = p) ∧
     ((p.mul q.conj).w < 0 → quatSum q (quatDiff p q) = p.neg) := by
   have hu : (p.mul q.conj).normSq = 1 := by rw [normSq_mul, normSq_conj, hp, hq, mul_one]
@@ -181,12 +162,12 @@ theorem sum_diff (p q : Q ℝ) (hp : p.normSq = 1) (hq : q.normSq = 1)
     rw [quatSum_quatDiff, exp_log_neg_branch _ hu hneg h, neg_mul', mul_conj_mul_cancel p q hq]
 
 /-- non-vacuity of `exp_log` / `sum_diff`: the unit quaternion `(0.6, 0.8, 0, 0)` -/
-example : ∃ q : Q ℝ, q.normSq = 1 ∧ 0 ≤ q.w ∧ cutoff < q.vec.norm := by
+example : ∃ q : Q ℝ, q.normSq = 1 ∧ 0 ≤ q.w ∧ cutoffLog < q.vec.norm := by
   refine ⟨⟨0.6, 0.8, 0, 0⟩, by simp [Q.normSq]; norm_num, by norm_num, ?_⟩
   have : (⟨0.6, 0.8, 0, 0⟩ : Q ℝ).vec.norm = 0.8 := by
     rw [V3.norm_def]; simp only [Q.vec]
     rw [show (0.8 : ℝ) ^ 2 + 0 ^ 2 + 0 ^ 2 = 0.8 ^ 2 by ring]; exact Real.sqrt_sq (by norm_num)
-  rw [this, cutoff_val]; norm_num
+  rw [this, cutoffLog_val]; norm_num
 
 /-! ## weighted mean (`mean_quaternion`): eigenvector contract -/
 
